@@ -11,7 +11,7 @@ class _RL(dict):
 UNIT_RLIMIT = _RL({"div_small": 80, "mul_redc": 80})      # unit -> --rlimit (Verus default is 10; 5x head-room over the measured maximum)
 UNIT_TIMEOUT = {"knuth": 1500, "addmul": 900, "mul_redc": 1200}     # unit -> seconds
 UNIT_EXPECT = {       # unit -> minimum number of verified functions on the unchanged tree (vacuity guard)
-    "core": 31, "add": 29, "kernels": 79, "addmul": 71, "addmul_n": 73, "mul": 51, "divd": 45, "div_small": 235, "knuth": 145, "mul_redc": 124, "basics": 22, "pow": 38, "divw": 54, "modular": 63, "spigot": 44, "gcd": 24, "forward": 57, "invring": 36, "bitlen": 70, "shifts": 131, "recip_table": 2, "gcdext": 67, "gcdw": 36, "bits": 60, "conv": 31, "lehmer": 37, "logs": 27,
+    "core": 31, "add": 29, "kernels": 79, "addmul": 71, "addmul_n": 73, "mul": 51, "divd": 45, "div_small": 235, "knuth": 145, "mul_redc": 124, "basics": 22, "pow": 38, "divw": 54, "modular": 63, "spigot": 44, "gcd": 24, "forward": 57, "invring": 36, "bitlen": 70, "shifts": 131, "recip_table": 2, "gcdext": 67, "gcdw": 36, "bits": 60, "conv": 31, "lehmer": 37, "logs": 27, "forward_shift": 81,
 }
 
 COMMON_TRUST = [
@@ -132,11 +132,13 @@ PROPS = {
     "C05": dict(
         level="proof",
         level_text="Verus proves, for every BITS/LIMBS, every value and EVERY usize shift amount (whole-limb, sub-limb, mixed, >= BITS, >= 64*LIMBS): overflowing_shl returns (value*2^s mod 2^BITS, value*2^s >= 2^BITS), "
-                   "overflowing_shr returns (floor(value/2^s), value mod 2^s != 0); checked_shl/saturating_shl/wrapping_shl/checked_shr/wrapping_shr follow from those contracts",
-        level_note="NOT under Verus: the operator overloads (<<, >> for each integer type and for Uint-typed amounts: macro-generated, Kani per width), rotate_left/right and arithmetic_shr (built from the operators; Kani per width). "
+                   "overflowing_shr returns (floor(value/2^s), value mod 2^s != 0); checked_shl/saturating_shl/wrapping_shl/checked_shr/wrapping_shr follow from those contracts; and the 80 operator impls that impl_shift! generates "
+                   "for the ten primitive amount types (<<, >>, <<=, >>= by value and by reference) forward to wrapping_shl / wrapping_shr with the amount cast to usize (bodies re-extracted from the macro-expanded crate)",
+        level_note="NOT under Verus: the Uint-typed shift amounts (Shl<Uint> etc.: Kani per width), rotate_left/right and arithmetic_shr (built from the operators; Kani per width). In unit forward_shift the nested operator uses "
+                   "inside the `&T` and compound-assignment impls are resolved by hand to the impl rustc's trait selection picks from the operand types (declared optional rewrites). "
                    "ASSUMED: derived PartialEq (limb-wise == value equality)",
         technique="deductive contracts (Verus, all widths and all shift amounts) + Kani per width for operators, rotations and arithmetic shift",
-        units=["core", "shifts"],
+        units=["core", "shifts", "forward_shift"],
         kani=dict(features=None, quick=hs("c05", None, r"_slow"), thorough=hs("c05"), bounds="see kani/src/c05.rs: fixed widths, all values, all shift amounts up to BITS + 64*LIMBS + 1"),
         explanation="loop invariant lv(r[L..L+i]) + B^i*carry = lv(self[0..i]) * 2^b (shl) resp. lv(r[k-i..k]) * 2^b + (y mod 2^b) = lv(self[n-i..n]) (shr) with the carry tied to the previous limb; "
                     "lemma_shl_result / lemma_shr_result lift limb facts to value*2^s mod 2^BITS, floor(value/2^s) and the exact lost-bits flag",
@@ -395,7 +397,7 @@ PROPS = {
         level_note="macro expansion is rustc's (trusted); N15 places trait-impl methods in an inherent impl under mangled names; commutative operations accept either argument order; NOT under Verus: Bits wrapper, bit-op / shift "
                    "operator families (Kani per width in C05/C06), PrimInt/ToPrimitive/FromPrimitive, num-integer, subtle (Kani per width, expensive ones only at 7-8 bits); known finding: subtle bit_ct panics for index >= BITS",
         technique="deductive forwarding contracts over uninterpreted spec functions (Verus, all widths) + Kani per-width equality harnesses",
-        units=["forward"],
+        units=["forward", "forward_shift"],
         kani=dict(features="facades", quick=hs("c20", None, r"^c20::kf_"), thorough=hs("c20", None, r"^c20::kf_"), bounds="see kani/src/c20.rs"),
         known_findings={"subtle_bit_ct_out_of_range": ["c20::kf_c20_subtle_bit_ct_out_of_range_w65"]},
         explanation="a swapped argument, a forward to the wrong variant or *self vs *other breaks r == spec_m(args)",
